@@ -19,7 +19,9 @@ def table_instance(rng, sizes, de, values, weights):
 
 def growth_records(pa, rng, quick):
     # (sizes, delta_empty (x8), pair values in half delta_empty units, weights): mostly below the cut, some above
-    specs = [([104, 104], 8, [0, 1, 2, 3, 4, 5, 6], [5, 5, 5, 5, 4, 0.6, 0.6])]      # 11 025 tuples: first growth (10 000)
+    # quick: 11 025 tuples (first growth at 10 000) and 22 801 tuples (growths at 10 000 and 15 000; > 20 000 candidates)
+    specs = [([104, 104], 8, [0, 1, 2, 3, 4, 5, 6], [5, 5, 5, 5, 4, 0.6, 0.6]),
+             ([150, 150], 16, [0, 1, 2, 3, 4, 6], [5, 5, 5, 5, 3, 0.8])]
     if not quick:
         specs += [([125, 125], 8, [0, 1, 2, 3, 4, 5], [4, 4, 4, 4, 2, 1]),             # 15 876 tuples: second growth (15 000)
                   ([160, 160], 16, [0, 1, 2, 3, 4, 6], [4, 4, 4, 4, 2, 1]),            # 25 921 tuples: third growth (22 500)
@@ -44,7 +46,7 @@ def growth_records(pa, rng, quick):
                              cands=(dis, tup), meta={"family": "growth", "sizes": sizes, "candidates": int(len(dis)),
                                                      "tuples": int(__import__("math").prod(s + 1 for s in sizes))})
         recs.append(rec)
-    need = [10000] if quick else [10000, 15000, 22500]
+    need = [10000, 15000, 20000] if quick else [10000, 15000, 20000, 22500]
     top = max(r["_meta"]["candidates"] for r in recs)
     for b in need:
         if not any(r["_meta"]["candidates"] > b for r in recs):
